@@ -206,6 +206,7 @@ class SArr:
     def __init__(self, buf, offs, shape, n=None, dtype=None):
         self.buf, self.offs, self.shape_cap, self.n = buf, offs, tuple(int(d) for d in shape), n
         self.dtype = as_dtype(dtype) if dtype is not None else int64
+        self.vlast = False     # True: logically shape lead+(n,), stored with the variable axis first (see _adv_get Ellipsis)
 
     @staticmethod
     def new(vals, shape, n=None, dtype=None):
@@ -453,6 +454,17 @@ class SArr:
     def _ew(self, o, f, dt=None):
         if isinstance(o, (_np.ndarray, list, tuple)):
             o = array(o)
+        if isinstance(o, SArr) and (self.vlast or o.vlast):
+            A, B = (self, o)
+            if not A.vlast:
+                A = SArr(A.buf, A.offs, A.shape_cap + (1,) * (B.ndim - A.ndim), A.n, A.dtype) if A.ndim == 1 else moveaxis_last_first(A)
+            if not B.vlast:
+                B = SArr(B.buf, B.offs, B.shape_cap + (1,) * (A.ndim - B.ndim), B.n, B.dtype) if B.ndim == 1 else moveaxis_last_first(B)
+            shp = _bshape(A.shape_cap, B.shape_cap)
+            n = A.n if A.n is not None else B.n
+            r = SArr.new([f(x, y) for x, y in zip(_bcast(A, shp), _bcast(B, shp))], shp, n, dt or _promote(self.dtype, o.dtype))
+            r.vlast = True
+            return r
         if isinstance(o, SArr):
             shp = _bshape(self.shape_cap, o.shape_cap)
             a = _bcast(self, shp)
@@ -469,7 +481,9 @@ class SArr:
             odt = _scalar_dtype(o)
         if dt is None:
             dt = _promote(self.dtype, odt)
-        return SArr.new([f(x, y) for x, y in zip(a, b)], shp, n, dt)
+        r = SArr.new([f(x, y) for x, y in zip(a, b)], shp, n, dt)
+        r.vlast = self.vlast
+        return r
 
     def __add__(s, o): return s._ew(o, _add)
     def __radd__(s, o): return s._ew(o, lambda a, b: _add(b, a))
@@ -483,7 +497,7 @@ class SArr:
     def __mod__(s, o): return s._ew(o, lambda a, b: a % b)
     def __pow__(s, o): return s._ew(o, _pow)
     def __neg__(s): return SArr.new([-v for v in s.flat_list()], s.shape_cap, s.n, s.dtype)
-    def __abs__(s): return SArr.new([abs(v) for v in s.flat_list()], s.shape_cap, s.n, s.dtype)
+    def __abs__(s): return SArr.new([_bi.abs(v) for v in s.flat_list()], s.shape_cap, s.n, s.dtype)
     def __eq__(s, o): return s._ew(o, lambda a, b: _eq(a, b), bool_)
     def __ne__(s, o): return s._ew(o, lambda a, b: not_(_eq(a, b)), bool_)
     def __lt__(s, o): return s._ew(o, lambda a, b: a < b, bool_)
@@ -724,17 +738,27 @@ def _adv_get(a, key):
         raise Unsupported(f"getitem {key!r}")
     # Ellipsis followed by an index array:  a[..., idx]
     if key and key[0] is Ellipsis and len(key) == 2:
-        moved = moveaxis_last_first(a)
-        r = _adv_get(moved, (key[1],))
-        if isinstance(r, SArr) and r.ndim == moved.ndim + (key[1].ndim - 1 if isinstance(key[1], SArr) else -1):
-            return moveaxis_first_last(r, key[1].ndim if isinstance(key[1], SArr) else 0)
+        if a.ndim == 1:
+            return a[key[1]]
+        moved = moveaxis_last_first(a).copy()
+        k = key[1]
+        r = moved[k]
+        if not isinstance(r, SArr):
+            return r
+        if isinstance(k, SArr):
+            kd = 1 if k.dtype.kind == "b" else k.ndim
+            if r.n is not None:
+                # variable-length result: numpy's shape is lead+(n,); stored here with the variable axis first
+                r.vlast = True
+                return r
+            return moveaxis_first_last(r, kd).copy()
         return r
     k0, rest = key[0], tuple(key[1:])
     d0 = a.shape_cap[0]
     # leading full slice then advanced: a[:, idx]
     if isinstance(k0, slice) and k0 == slice(None) and len(rest) == 1 and a.ndim >= 2:
-        rows = [a[i][rest[0]] if not isinstance(a[i], SArr) else _adv_get(a[i], (rest[0],)) if not _is_basic(rest[0]) else a[i][rest[0]]
-                for i in range(d0)]
+        araw = a.raw()
+        rows = [_adv_get(araw[i], (rest[0],)) if not _is_basic(rest[0]) else araw[i][rest[0]] for i in range(d0)]
         return _stack_rows(rows, a.n, a.dtype)
     if isinstance(k0, Sym):
         _check_bounds(k0, d0, a)
@@ -750,7 +774,12 @@ def _adv_get(a, key):
         if k0.dtype.kind == "b":
             sub = _compress(a, k0)
             if rest:
-                raise Unsupported("mask + further index")
+                if not _bi.all(_is_basic(r) for r in rest):
+                    raise Unsupported("mask + advanced index")
+                r = sub.raw()[(slice(None),) + rest]
+                if isinstance(r, SArr):
+                    r.n = sub.n
+                return r
             return sub
         # paired advanced indices a[i_arr, j_arr]
         if rest and isinstance(rest[0], (SArr, Sym)) and len(rest) == 1 and isinstance(rest[0], SArr):
@@ -780,7 +809,8 @@ def _adv_get(a, key):
         return _adv_get(a[k0], rest)
     if isinstance(k0, slice) and rest:
         r0 = range(*k0.indices(d0))
-        rows = [_adv_get(a[i], rest) if not _bi.all(_is_basic(r) for r in rest) else a[i][rest] for i in r0]
+        araw = a.raw()
+        rows = [_adv_get(araw[i], rest) if not _bi.all(_is_basic(r) for r in rest) else araw[i][rest] for i in r0]
         return _stack_rows(rows, None, a.dtype)
     raise Unsupported(f"getitem {key!r}")
 
@@ -801,7 +831,7 @@ def _get2(a, i, j):
     d0, d1 = a.shape_cap[0], a.shape_cap[1]
     if isinstance(i, Sym):
         _check_bounds(i, d0, a)
-        rows = [_get2(a, r, j) for r in range(d0)]
+        rows = [_get2(a.raw(), r, j) for r in range(d0)]
         return _select(_norm_index(i, d0), rows)
     row = a[i]
     if isinstance(j, Sym):
@@ -848,14 +878,28 @@ def _adv_set(a, key, val):
         key = (key,)
     if isinstance(key, SArr):
         key = (key,)
+    if isinstance(key, tuple) and len(key) == 2 and key[0] is Ellipsis:
+        if a.ndim == 1:
+            a[key[1]] = val
+            return
+        view = moveaxis_last_first(a)          # a view: writes go to a's buffer
+        k = key[1]
+        if isinstance(val, SArr) and val.ndim == a.ndim and not val.vlast:
+            val = moveaxis_last_first(val)
+        if isinstance(k, SArr) and k.dtype.kind == "b":
+            _set_rows_mask(view, k, val)
+        else:
+            view[k] = val
+        return
     if isinstance(key, tuple):
         k0, rest = key[0], tuple(key[1:])
         d0 = a.shape_cap[0]
         if isinstance(k0, Sym):
             _check_bounds(k0, d0, a)
             kk = _norm_index(k0, d0)
+            araw = a.raw()
             for i in range(d0):
-                sub = a[i] if a.ndim > 1 else None
+                sub = araw[i] if a.ndim > 1 else None
                 if sub is None:
                     o = a.offs[i]
                     a.buf[o] = ite(kk == i, _cast_in(val, a.dtype), a.buf[o])
@@ -917,10 +961,37 @@ def _adv_set(a, key, val):
         if isinstance(k0, slice) and rest and len(rest) == 1 and isinstance(rest[0], Sym):
             r0 = range(*k0.indices(d0))
             vals = _bcast(val, (len(r0),))
+            araw = a.raw()
             for i, v in zip(r0, vals):
-                a[i][rest[0]] = v
+                araw[i][rest[0]] = v
             return
     raise Unsupported(f"setitem {key!r}")
+
+
+def _set_rows_mask(a, mask, val):
+    """a[mask] = val along axis 0 where val is a scalar or an array whose k-th row goes to the k-th True"""
+    d0 = a.shape_cap[0]
+    ms = mask.flat_list()
+    rowlen = _prod(a.shape_cap[1:])
+    araw = a.raw()
+    if not isinstance(val, SArr):
+        for i, m in enumerate(ms):
+            for o in araw.offs[i * rowlen:(i + 1) * rowlen]:
+                a.buf[o] = ite(m, _cast_in(val, a.dtype), a.buf[o])
+        return
+    vraw = val.raw()
+    nv = vraw.shape_cap[0]
+    vfl = vraw.flat_list()
+    if _prod(vraw.shape_cap[1:]) != rowlen:
+        raise ValueError(f"shape mismatch: value array of shape {val.shape_cap} could not be broadcast to indexing result")
+    cnt = 0
+    for i, m in enumerate(ms):
+        for j, o in enumerate(araw.offs[i * rowlen:(i + 1) * rowlen]):
+            pick = vfl[(nv - 1) * rowlen + j] if nv else a.buf[o]
+            for k in range(nv - 2, -1, -1):
+                pick = ite(cnt == k, vfl[k * rowlen + j], pick)
+            a.buf[o] = ite(m, _cast_in(pick, a.dtype), a.buf[o])
+        cnt = cnt + ite(m, 1, 0)
 
 
 def _compress(a, mask):
@@ -1221,8 +1292,8 @@ def repeat(a, k, axis=None):
 
 
 def pad(a, width, constant_values=0, mode="constant"):
-    if isinstance(a, list):
-        a = array(a) if a else SArr.new([], (0,), None, int64)
+    if isinstance(a, (list, tuple)):
+        a = array(a)          # NB: np.array([]) is float64, as in numpy
     if a.ndim != 1:
         raise Unsupported("pad nd")
     lo, hi = width if isinstance(width, tuple) else (width, width)
@@ -1233,7 +1304,8 @@ def pad(a, width, constant_values=0, mode="constant"):
         lo = int(lo)
     if lo < 0 or hi < 0:
         raise ValueError("index can't contain negative values")
-    return SArr.new([constant_values] * lo + a.flat_list() + [constant_values] * hi, (lo + a.shape_cap[0] + hi,), None, a.dtype)
+    cv = _cast_scalar(constant_values, a.dtype) if not isinstance(constant_values, Sym) else constant_values
+    return SArr.new([cv] * lo + a.flat_list() + [cv] * hi, (lo + a.shape_cap[0] + hi,), None, a.dtype)
 
 
 # ------------------------------------------------------------------ logical / elementwise functions
@@ -1289,7 +1361,7 @@ def isnan(a):
     return _unary(a, f, bool_)
 
 
-def absolute(a): return _unary(a, lambda v: abs(_num(v)))
+def absolute(a): return _unary(a, lambda v: _bi.abs(_num(v)))
 abs = absolute   # noqa: A001
 
 
@@ -1325,7 +1397,7 @@ def isclose(a, b, rtol=1e-05, atol=1e-08):
         x, y = _num(x), _num(y)
         if isinstance(x, (int, SymInt)) and isinstance(y, (int, SymInt)) and rtol == 1e-05 and atol == 1e-08 and False:
             return x == y
-        return abs(x - y) <= (atol + rtol * abs(y))
+        return _bi.abs(x - y) <= (atol + rtol * _bi.abs(y))
     return _binary(a, b, f, bool_)
 
 
